@@ -224,7 +224,9 @@ def _run(case, out, rig):
             return fail("login_attempt_without_prologue", {"step": step, "head": b[:8].hex()})
         if b.count(b"WA\x04\x00") != 1:
             return fail("login_attempts_per_connection", {"step": step, "prologues": b.count(b"WA\x04\x00")})
-        bad = bool(corrupt and corrupt.pop(0))
+        bad = corrupt.pop(0) if corrupt else False
+        trailing = bad == 2 and bad is not True
+        bad = bool(bad)
         rig.server.corrupt_hello = bad
         try:
             rig.server.feed(b)
@@ -239,6 +241,10 @@ def _run(case, out, rig):
                 late.pop(0)
             n_f = len([e for e in above.got if getattr(e, "getTag", lambda: "")() == "failure"])
             d_ = rig.current
+            if trailing:
+                # one more frame in the same read, behind the reply that fails: it belongs to this attempt and to no later one
+                o += b"\x00\x00\x0a" + b"\xc3" * 10
+                out.label("frame_behind_rejected_reply")
             rig.deliver(o)
             rig.shuttle(only=d_)
             out.label("handshake_reply_rejected")
@@ -647,7 +653,7 @@ def case_strategy(ops=None):
                 "redundant_down": draw(st.booleans()),
                 "late": draw(st.lists(st.booleans(), min_size=0, max_size=6)),
                 "fresh_keys": draw(st.sampled_from([False, False, True])),
-                "corrupt": draw(st.lists(st.sampled_from([False, False, False, True]), min_size=0, max_size=5)),
+                "corrupt": draw(st.lists(st.sampled_from([False, False, False, True, 2]), min_size=0, max_size=5)),
                 "choices": draw(st.lists(st.integers(0, 5), min_size=n, max_size=n)),
                 "preempt": draw(st.lists(st.tuples(st.integers(0, 1500), st.integers(0, 3)).map(list), min_size=0, max_size=3)) if n == 0 else []}
     return build_()
@@ -670,6 +676,7 @@ def _enum_basic():
                           ["connect"], ["success"], ["tick"], ["pong", 0], ["stale_pong", 1], ["tick"]])
     yield dict(base, fresh_keys=True, ops=[["connect"], ["success", 0], ["success", 0], ["tick"], ["pong", 0], ["peer_close", 0], ["connect"], ["success", 0]])
     yield dict(base, fresh_keys=True, ops=[["connect"], ["success", 2], ["peer_close", 0], ["connect"], ["success", 0], ["success", 0], ["tick"]])
+    yield dict(base, corrupt=[2, False], ops=[["connect"], ["loop"], ["connect"], ["success"], ["send", 1], ["loop"]])
     yield dict(base, corrupt=[True, False, True], ops=[["connect"], ["loop"], ["connect"], ["success"], ["stream_error", "ack", False, 0], ["loop"], ["connect"],
                                                         ["success"]])
     yield dict(base, ops=[["connect"], ["success"], ["unwritten_send_then_close"], ["loop"], ["connect"], ["success"], ["send"], ["tick"]])
